@@ -15,6 +15,9 @@ func init() {
 			{Pkg: "buffer", Entry: "VerifH03b", What: "accessors never read beyond the message; results equal an independent cursor",
 				Quick: map[string]int{"N": 5, "CALLS": 2}, Thorough: map[string]int{"N": 6, "CALLS": 3},
 				Witnesses: []string{"string-read", "u32-read"}},
+			{Pkg: "wire", Entry: "VerifH03c", What: "session level: surplus/unread fields of one message never change what the next message produces",
+				Quick: map[string]int{"S": 3}, Thorough: map[string]int{"S": 5},
+				Witnesses: []string{"surplus-then-empty-body", "second-parsed"}},
 		},
 	})
 }
